@@ -96,6 +96,7 @@ class Stats:
         self.sample = None
         self.capped = False
         self.stopped_early = False
+        self.audit = None
 
     def merge(self, o):
         self.executions += o.executions
@@ -208,7 +209,60 @@ def explore(harness, param_list, bound, max_exec_per_param=None, deadline=None, 
     tasks.sort(key=lambda t: (-t[0].get("bound", bound), sum(1 for c, n in t[1][0] if c), len(t[1][0])))
     for st in pmap(sub_work, tasks, jobs):
         total.merge(st)
+    try:
+        total.audit = audit(harness, param_list, jobs)
+    except ToolingError as e:
+        total.audit = {"error": str(e)[:300]}
     return total
+
+
+AUDIT_TOOL = 4
+
+
+def audit_one(harness, params):
+    """One default-schedule execution with LINE events on every miros code object: which code objects did two or more
+    virtual threads execute inside the race window without being scheduling-point code of this harness?  Those are the
+    places where a race could hide from the exploration (reported in the evidence, see DESIGN 4.1)."""
+    import sys
+    import miros.activeobject as m1, miros.event as m2, miros.singleton as m3, miros.thread_safe_attributes as m4, miros.hsm as m5
+    harness.setup_process()
+    mon = sys.monitoring
+    codes = sched.code_objects_of(m1, m2, m3, m4, m5)
+    seen = {}
+
+    def on_line(code, line):
+        s = sched.ACTIVE
+        if s is None or not s.window:
+            return
+        me = s.by_ident.get(sched._get_ident())
+        if me is not None:
+            seen.setdefault(code, set()).add(me.tid)
+
+    mon.use_tool_id(AUDIT_TOOL, "mc-audit")
+    try:
+        mon.register_callback(AUDIT_TOOL, mon.events.LINE, on_line)
+        for co in codes:
+            mon.set_local_events(AUDIT_TOOL, co, mon.events.LINE)
+        run_execution(harness, params, ())
+    finally:
+        for co in codes:
+            mon.set_local_events(AUDIT_TOOL, co, 0)
+        mon.register_callback(AUDIT_TOOL, mon.events.LINE, None)
+        mon.free_tool_id(AUDIT_TOOL)
+    monitored = set(sched._mon_state["codes"])
+    shared = {co for co, tids in seen.items() if len(tids) >= 2}
+    return {"shared_monitored": sorted(co.co_qualname for co in shared if co in monitored),
+            "shared_unmonitored": sorted(co.co_qualname for co in shared if co not in monitored)}
+
+
+def audit(harness, param_list, jobs=None):
+    outs = pmap(lambda p: audit_one(harness, p), list(param_list), jobs or ncpu())
+    mon, un = set(), set()
+    for o in outs:
+        mon |= set(o["shared_monitored"])
+        un |= set(o["shared_unmonitored"])
+    return {"code_run_by_2plus_threads_with_scheduling_points": sorted(mon),
+            "code_run_by_2plus_threads_without_scheduling_points": sorted(un)}
 
 
 def replay(harness, witness):
